@@ -58,8 +58,8 @@ def run_stream(chk, cfg, nsteps, perms=None, faults=0):
         r = chk.rng.random()
         if r < 0.15:
             kw["update_storage"] = False if t > 0 else True
-        if chk.rng.random() < 0.2:
-            kw["n_inner_samples"] = chk.rng.randint(1, 3)
+        if chk.rng.random() < 0.2 or (t == 1 and nsteps >= 4 and not faults):
+            kw["n_inner_samples"] = chk.rng.randint(1, 3) if t != 1 else (cfg["n_inner"] % 3) + 1   # differs from the configured value
         perm = None
         if perms is not None and t >= 1 and t - 1 < len(perms):
             perm = perms[t - 1]
@@ -182,8 +182,12 @@ def imputer_inputs_fail(rig, rec):
     instance, inside it they are background values (a stored row's value for that feature / the configured default)"""
     x = rec["x"]
     rows = rec["rows_before"]
+    n_eff = rec["kw"].get("n_inner_samples") or rig.n_inner       # a per-call override holds for that call only
     for c in rec["imp_calls"]:
         S = c["subset"]
+        if c["preds"] is not None and rig.kind in ("pfi", "sage") and (c["n"] != n_eff or len(c["preds"]) != n_eff):
+            return (f"imputer call for subset {S}: asked for {c['n']} inner samples and averaged {len(c['preds'])}, but the number in force for this "
+                    f"call is {n_eff} (configured {rig.n_inner}, per-call override {rec['kw'].get('n_inner_samples')})")
         for z in c.get("inputs", []):
             for g in range(rig.d):
                 if g not in S:
